@@ -28,7 +28,7 @@ ASSUMPTIONS = [
     "stdin is not part of the histories (CachedStdin is documented caching)",
     "faults only at calls leaving the package (OS calls, user callbacks)",
 ]
-PROBES = ["history-after-failure", "pristine-leg", "world-edit", "fault-in-history"]
+PROBES = ["construction-env-differs", "history-after-failure", "pristine-leg", "world-edit", "fault-in-history"]
 ANCHOR_FILES = ("_core", "_actions", "_typehints", "_common", "_link_arguments", "_completions")
 NO_SHRINK = ("parsers/*/opts", "parsers/*/opts/*", "world", "pristine")
 SHRINK_DICTS = ("world/files", "world/env")
@@ -276,6 +276,14 @@ def generate(rng, tier):
     for _ in range(nops):
         pi = rng.randrange(nparsers)
         ops.append(gen_op(rng, pi, parsers[pi]["feats"]))
+    if rng.random() < 0.15 and len(ops) >= 3:
+        # the variable that is read when a parser is CONSTRUCTED changes for a while and is restored: calls made
+        # inside the window must not make the parser remember it
+        a = rng.randrange(0, len(ops) - 1)
+        b = rng.randrange(a + 1, len(ops))
+        ops.insert(a, {"p": 0, "kind": "edit", "env": "JSONARGPARSE_DEFAULT_ENV", "value": rng.choice(["true", "false"])})
+        ops.insert(b + 1, {"p": 0, "kind": "edit", "env": "JSONARGPARSE_DEFAULT_ENV", "value": "__initial__"})
+        ops += [{"p": rng.randrange(nparsers), "kind": "args", "argv": []}, {"p": rng.randrange(nparsers), "kind": "env", "env": {"APP_A": "7"}}]
     dcf_parsers = [i for i, p in enumerate(parsers) if "dcf" in p["feats"]]
     if dcf_parsers and rng.random() < 0.35:
         # an output-printing call, then the default config file changes, then calls that read defaults again:
@@ -584,6 +592,9 @@ def _run_history(sc, ctx, sim, root, golden, srv, cwd0, ns0):
     dirty = [False] * len(specs)  # an earlier op on this parser failed / exited / printed / was faulted
     used = [0] * len(specs)
     pristine = set(sc.get("pristine") or [])
+    CE = "JSONARGPARSE_DEFAULT_ENV"
+    ce0 = os.environ.get(CE)
+    built_under = [None] * len(specs)
     for i, op in enumerate(sc["ops"]):
         pi = op["p"]
         kind = op["kind"]
@@ -592,6 +603,11 @@ def _run_history(sc, ctx, sim, root, golden, srv, cwd0, ns0):
             if "file" in op:
                 with open(os.path.join(root, "run" if op["file"].startswith("c") else "", op["file"]), "w") as f:
                     f.write(op["text"])
+            elif op.get("value") == "__initial__":
+                if ce0 is None:
+                    os.environ.pop(op["env"], None)
+                else:
+                    os.environ[op["env"]] = ce0
             elif op.get("value") is None:
                 os.environ.pop(op["env"], None)
             else:
@@ -602,6 +618,7 @@ def _run_history(sc, ctx, sim, root, golden, srv, cwd0, ns0):
         if R[pi] is None:
             sim.begin_op(i, "build")
             R[pi] = zoo.build(specs[pi])
+            built_under[pi] = os.environ.get(CE)
         sim.begin_op(i, kind)
         if hasattr(R[pi], "print_config"):
             sim.probe("print-config-pending-at-op-start")
@@ -622,6 +639,11 @@ def _run_history(sc, ctx, sim, root, golden, srv, cwd0, ns0):
         if oR.kind != "ret" or faulted or oR.stdout:
             dirty[pi] = True
         if golden:
+            continue
+        if os.environ.get(CE) != built_under[pi]:
+            # a fresh parser built NOW would legitimately read another construction-time environment: no verdict
+            sim.probe("construction-env-differs")
+            sim.emit("legs", "-", "construction-env-differs")
             continue
         # F leg: fresh parser, same process, same fault plan
         saved = sim.op_kinds
